@@ -126,7 +126,14 @@ fn direct_kind<const FN: usize, const UN: usize>(la: bool, ra: bool, ctx2: bool)
     let r1 = has_pre && alnum(pre) && e0 >= 1;
     // role of the second recorded defect: the URL has a literal '*' directly next to the occurrence; the
     // tokenizer applies the rule-side "skip tokens adjacent to '*'" logic to URLs as well
-    let r2 = (has_pre && pre == b'*') || (has_post && post == b'*');
+    // ... and only for the rule token that touches the star: the first run (pre == '*') or the last run (post == '*')
+    let mut sl = fl;
+    while sl > 0 && alnum(fb[sl - 1]) {
+        sl -= 1;
+    }
+    let hl_last = pack(&fb[sl..fl]);
+    let star_pre = has_pre && pre == b'*' && e0 >= 1;
+    let star_post = has_post && post == b'*' && sl < fl;
     unsafe {
         assert!(NA <= 4 && NB <= 6, "P:tok.buffer_bound");
         let mut k = 0;
@@ -141,7 +148,7 @@ fn direct_kind<const FN: usize, const UN: usize>(la: bool, ra: bool, ctx2: bool)
                     }
                     j += 1;
                 }
-                if r2 {
+                if (star_pre && t == h0) || (star_post && t == hl_last) {
                     assert!(found, "K:url-token-next-to-literal-star:tok.subset");
                 } else if r1 && t == h0 {
                     assert!(found, "K:first-token-left-unanchored:tok.subset");
@@ -182,6 +189,149 @@ fn c01_tok_right() {
 fn c01_tok_both() {
     direct_kind::<5, 7>(true, true, false);
 }
+
+/// Wildcard patterns: rule f = a ++ "*" ++ b (a, b: 0..=3 printable ASCII bytes without '*'/'^'); a URL it matches
+/// by construction under ABP semantics ('*' = any run): u = pre? ++ a ++ mid? ++ b ++ post?, no `pre` when
+/// left-anchored, no `post` when right-anchored. Every token the tokenizer emits for the rule (with the flags
+/// get_tokens passes for a regex-kind pattern: skip_first = ra, skip_last = !ra) must be a token of u.
+fn star_kind(la: bool, ra: bool) {
+    let mut dr = crate::verif_shim::Draw::new();
+    let ab: [u8; 3] = dr.bytes::<3>();
+    let al: usize = dr.usize();
+    let bb: [u8; 3] = dr.bytes::<3>();
+    let bl: usize = dr.usize();
+    kani::assume(al <= 3 && bl <= 3);
+    let mut i = 0;
+    while i < 3 {
+        kani::assume(ab[i] < 0x80 && ab[i] >= 0x20 && ab[i] != b'*' && ab[i] != b'^');
+        kani::assume(bb[i] < 0x80 && bb[i] >= 0x20 && bb[i] != b'*' && bb[i] != b'^');
+        i += 1;
+    }
+    let (pre, mid, post): (u8, u8, u8) = (dr.u8(), dr.u8(), dr.u8());
+    kani::assume(pre < 0x80 && pre >= 0x20 && mid < 0x80 && mid >= 0x20 && post < 0x80 && post >= 0x20);
+    let (has_pre, has_mid, has_post): (bool, bool, bool) = (dr.bool(), dr.bool(), dr.bool());
+    if la {
+        kani::assume(!has_pre);
+    }
+    if ra {
+        kani::assume(!has_post);
+    }
+    // rule text
+    let mut fb = [b'/'; 7];
+    let mut fl = 0;
+    let mut i = 0;
+    while i < 3 {
+        if i < al {
+            fb[fl] = ab[i];
+            fl += 1;
+        }
+        i += 1;
+    }
+    fb[fl] = b'*';
+    fl += 1;
+    let mut i = 0;
+    while i < 3 {
+        if i < bl {
+            fb[fl] = bb[i];
+            fl += 1;
+        }
+        i += 1;
+    }
+    // URL text
+    let mut ub = [b'/'; 9];
+    let mut n = 0;
+    if has_pre {
+        ub[n] = pre;
+        n += 1;
+    }
+    let mut i = 0;
+    while i < 3 {
+        if i < al {
+            ub[n] = ab[i];
+            n += 1;
+        }
+        i += 1;
+    }
+    if has_mid {
+        ub[n] = mid;
+        n += 1;
+    }
+    let mut i = 0;
+    while i < 3 {
+        if i < bl {
+            ub[n] = bb[i];
+            n += 1;
+        }
+        i += 1;
+    }
+    if has_post {
+        ub[n] = post;
+        n += 1;
+    }
+    let f = unsafe { core::str::from_utf8_unchecked(&fb[..fl]) };
+    let u = unsafe { core::str::from_utf8_unchecked(&ub[..n]) };
+    let allowed = |c: char| (c as u32) < 0x80 && alnum(c as u8);
+    let mut va: Vec<Hash> = Vec::with_capacity(8);
+    let mut vb: Vec<Hash> = Vec::with_capacity(8);
+    unsafe {
+        MODE_B = false;
+    }
+    fast_tokenizer_no_regex(f, &allowed, ra, !ra, &mut va);
+    unsafe {
+        MODE_B = true;
+    }
+    fast_tokenizer_no_regex(u, &allowed, false, false, &mut vb);
+    // recorded roles: the first run of `a` continued to the left by the URL; a literal '*' in the URL next to it
+    let mut e0 = 0;
+    while e0 < al && alnum(ab[e0]) {
+        e0 += 1;
+    }
+    let h0 = pack(&ab[..e0]);
+    let r1 = has_pre && alnum(pre) && e0 >= 1;
+    let star_url = (has_pre && pre == b'*') || (has_post && post == b'*') || (has_mid && mid == b'*');
+    unsafe {
+        assert!(NA <= 4 && NB <= 6, "P:star.buffer_bound");
+        let mut k = 0;
+        while k < 4 {
+            if k < NA {
+                let t = RA[k];
+                let mut found = false;
+                let mut j = 0;
+                while j < 6 {
+                    if j < NB && RB[j] == t {
+                        found = true;
+                    }
+                    j += 1;
+                }
+                if star_url {
+                    assert!(found, "K:url-token-next-to-literal-star:star.subset");
+                } else if r1 && t == h0 {
+                    assert!(found, "K:first-token-left-unanchored:star.subset");
+                } else {
+                    assert!(found, "P:star.tokens_next_to_a_wildcard_are_never_bucket_keys");
+                }
+            }
+            k += 1;
+        }
+        kani::cover!(NA >= 1, "W:star.rule_has_token");
+    }
+    core::mem::forget(va);
+    core::mem::forget(vb);
+}
+macro_rules! star_harness {
+    ($name:ident, $la:expr, $ra:expr) => {
+        #[kani::proof]
+        #[kani::unwind(11)]
+        #[kani::stub(crate::utils::fast_hash, stub_fast_hash_ab)]
+        fn $name() {
+            star_kind($la, $ra);
+        }
+    };
+}
+star_harness!(c01_star_plain, false, false);
+star_harness!(c01_star_right, false, true);
+star_harness!(c01_star_left, true, false);
+star_harness!(c01_star_both, true, true);
 
 // thorough: two context bytes on each unanchored side (rule <= 4 so the URL stays <= 8 bytes)
 #[kani::proof]
